@@ -6,7 +6,6 @@
 package reconciledloader
 
 //@ -- a CID is "the sum of" some bytes when hashing exactly these bytes under the CID's prefix gives the CID
-//@ fn isSumOf(c ref, data []byte) bool
 
 //@ -- C01: a remote item never carries bytes that do not hash to its own link
 //@ pred good(it remoteItem) := len(it.block) == 0 || isSumOf(it.link, it.block)
@@ -105,3 +104,21 @@ package reconciledloader
 //@   iterloop LinkMetadata.Iterate invariant allGood() && (forall j int :: 0 <= j && j < len(items) ==> items[j] != nil && isalloc(items[j]))
 //@   modifies alloc, remotedLinkedItem.next, remotedLinkedItem.remoteItem, remoteQueue.head, remoteQueue.tail, remoteQueue.dataSize, allmaps("map[cid.Cid]struct{}")
 //@   ensures allGood()
+
+//@ pred wf(rl *ReconciledLoader) := rl != nil && rl.signal != nil && rl.lock != nil && rl.lsys != nil
+//@ pred linkCid(link datamodel.Link) := cast(link, cidlink.Link).Cid
+//@ pred isCidLink(link datamodel.Link) := link != nil && dyntype(link) == typetag("cidlink.Link")
+
+//@ -- C01: the only bytes the loader ever writes to the local store, and the only remote bytes it ever hands to the
+//@ -- traversal, hash to the link the traversal asked for - whatever the queue holds (the queue is filled from the
+//@ -- network); a head item for a different link is an error, nothing is written
+//@ func ReconciledLoader.loadRemote
+//@   lenient
+//@   requires wf(rl) && allGood() && qinv(rl.remoteQueue) && rl.remoteQueue.head != nil && isalloc(rl.remoteQueue.head) && isCidLink(link)
+//@   modifies alloc, remoteQueue.head, remoteQueue.lastConsumed, remoteQueue.dataSize, remotedLinkedItem.remoteItem, pathTracker.lastUnfollowedRemotePath
+//@   callsite settableWriter.SetBytes: assert isSumOf(linkCid(link), arg0)
+//@   callsite Writer.Write: assert isSumOf(linkCid(link), arg0)
+//@   callsite $committer: assert arg0 == link
+//@   ensures allGood() && qinv(rl.remoteQueue)
+//@   ensures len(result0) > 0 ==> result1 == nil && isSumOf(linkCid(link), result0)
+//@   ensures old(rl.remoteQueue.head.link) != linkCid(link) ==> len(result0) == 0 && result1 != nil
